@@ -66,7 +66,9 @@ C03V(r) ==
       In(k) == ob[k].t \in TicksOf(nl)
   IN
   IF ~(WellFormedTrack(nl) /\ OpenLineFirst(nl)) THEN Skip("not-well-formed")
-  ELSE IF r.raised # "" THEN Skip("raised")
+  ELSE IF r.first /\ nl # <<>> /\ ForcedAt(nl, MinTick(nl)) THEN Skip("forced-first-note")
+  \* (the statement is about the note events of a well-formed section: a section that is rejected has none of them)
+  ELSE IF r.raised # "" THEN <<"fail", "well-formed-section-rejected">>
   ELSE FirstFail(<<
     <<"sustain-as-written", \A k \in DOMAIN ob : In(k) => ob[k].su = SustainAt(nl, ob[k].t)>>,
     <<"longest-is-max",     \A k \in DOMAIN ob : In(k) => ob[k].lg = LongestAt(nl, ob[k].t)>>,
@@ -89,10 +91,10 @@ C04V(r) ==
   LET nl == r.nl  ob == r.notes
   IN
   IF ~WellFormedTrack(nl) THEN Skip("not-well-formed")
-  ELSE IF r.raised # "" THEN Skip("raised")
-  ELSE IF nl = <<>> THEN Ok
-  ELSE IF ForcedAt(nl, MinTick(nl)) THEN Skip("forced-first-note")
+  ELSE IF nl # <<>> /\ ForcedAt(nl, MinTick(nl)) THEN Skip("forced-first-note")
   ELSE IF r.res < 1 THEN Skip("resolution")
+  ELSE IF r.raised # "" THEN <<"fail", "well-formed-section-rejected">>
+  ELSE IF nl = <<>> THEN Ok
   ELSE FirstFail(<<
     <<"hopo-state", \A k \in DOMAIN ob : ob[k].t \in TicksOf(nl) =>
                        ob[k].h = HopoAt(nl, r.res, ob[k].t, PrevTick(nl, ob[k].t))>>,
@@ -102,7 +104,9 @@ C04V(r) ==
 (***************************** C05 *****************************************)
 C05V(r) ==
   LET ob == r.notes  sp == r.sp IN
-  IF r.raised # "" THEN Skip("raised")
+  IF r.raised # "" THEN
+     (IF WellFormedTrack(r.nl) /\ PhrasesSorted(r.ph) /\ ~(r.nl # <<>> /\ ForcedAt(r.nl, MinTick(r.nl)))
+      THEN <<"fail", "well-formed-section-rejected">> ELSE Skip("raised"))
   ELSE IF ~PhrasesSorted(sp) THEN Skip("phrases-not-sorted")
   ELSE IF ~(\A k \in 1..(Len(ob) - 1) : ob[k].t < ob[k+1].t) THEN Skip("notes-not-increasing")
   ELSE FirstFail(<<
